@@ -1,10 +1,11 @@
 (* C13 — every snapshot satisfies the documented ISD shape.  M = Model/Isd.v (isd), S = Spec/IsdShape.v: the
    checker `shape_clauses` lists the clauses of doc/isd.md and of the property text, one boolean per clause.
-   Proved here, for EVERY document and rational time: clauses 0, 1, 2, 4, 7 and 10.  The remaining clauses
+   Proved here, for EVERY document and rational time: clauses 0, 1, 2, 4, 7 and 10, and clause 6 on the regions
+   of the snapshot (the only elements that carry origin and position).  The remaining clauses
    (3 content model, 5 rh/rw lengths — false of the faithful model for tts:disparity, see KNOWN_FINDINGS —,
-   6 origin = position, 8 no empty text / childless span, 9 collapsed white space) are not proved; they are
+   8 no empty text / childless span, 9 collapsed white space) are not proved; they are
    evaluated by the same checker on every snapshot the implementation and the model produce (harness/c13.py). *)
-From TT Require Import Model.Doc Gen.StyleTables Model.Isd Spec.IsdShape Proofs.C13.Shape Proofs.C13.Styles.
+From TT Require Import Model.Doc Gen.StyleTables Model.Isd Spec.IsdShape Proofs.C13.Shape Proofs.C13.Styles Proofs.C13.OriginPosition.
 
 Theorem C13_no_timing : forall d t rs, isd d t = Ok rs -> nth 0 (shape_clauses [] false rs) false = true.
 Proof. exact snapshot_no_timing. Qed.
@@ -25,6 +26,12 @@ Theorem C13_empty_regions : forall d t rs,
   Forall (fun r => e_kind (eattrs r) = KRegion) (d_regions d) -> isd d t = Ok rs -> nth 10 (shape_clauses [] false rs) false = true.
 Proof. exact snapshot_empty_regions. Qed.
 
+(* origin and position coincide on every region of a snapshot (position, when specified, overrides origin) *)
+Theorem C13_origin_position_regions : forall d t rs,
+  Forall (fun r => e_kind (eattrs r) = KRegion) (d_regions d) -> isd d t = Ok rs -> forallb origin_position_ok rs = true.
+Proof. exact snapshot_origin_position. Qed.
+
+Print Assumptions C13_origin_position_regions.
 Print Assumptions C13_no_timing.  Print Assumptions C13_no_animation.  Print Assumptions C13_no_region_refs.
 Print Assumptions C13_styles_exact.  Print Assumptions C13_style_phase_complete.  Print Assumptions C13_no_display_none.
 Print Assumptions C13_empty_regions.
